@@ -169,7 +169,10 @@ func AcceptOnce(ln net.Listener) (r AcceptResult) {
 	conn, err := ln.Accept()
 	r.Conn, r.Err = conn, err
 	if err != nil {
-		if err == net.ErrClosed || strings.Contains(err.Error(), "use of closed network connection") {
+		// the listener reports its own closure with exactly net.ErrClosed; a
+		// handshake error may *mention* a closed connection (the peer's, or a
+		// faulted one) and is not that
+		if err == net.ErrClosed {
 			r.Closed = true
 		}
 		if t, ok := err.(interface{ Temporary() bool }); ok && t.Temporary() {
